@@ -2,7 +2,10 @@
 """keep_seed.py ID N "<detected_by / result text>": copy a confirmed seeded change into /verif/seeded/ID-N/ with an augmented meta.json"""
 import json,os,shutil,subprocess,sys
 ID,N,res=sys.argv[1],sys.argv[2],sys.argv[3]
-src=f"/tmp/seed-out/{ID}/{N}"; dst=f"/verif/seeded/{ID}-{N}"
+R=os.environ.get("ROUND","1")
+OUT="/tmp/seed-out" if R=="1" else f"/tmp/seed-out{R}"
+K=int(N)+3*(int(R)-1)
+src=f"{OUT}/{ID}/{N}"; dst=f"/verif/seeded/{ID}-{K}"
 os.makedirs(dst,exist_ok=True)
 for f in os.listdir(src):
     shutil.copy(os.path.join(src,f),dst)
@@ -11,7 +14,7 @@ m["demo_cmd"]=m["demo_cmd"].replace(src,dst)
 conf=subprocess.run(["python3","/verif/tools/confirm_seed.py",ID,N],stdout=subprocess.PIPE,text=True).stdout.splitlines()[0]
 m["confirmed_in_scratch_worktree"]=json.loads(conf)
 m["what_i_ran"]=[f"python3 tools/confirm_seed.py {ID} {N}   (apply in /tmp/seed-{ID}; go build; go test ./...; demo with and without the change)",
-                 f"tools/seedrun.sh seeded/{ID}-{N}/patch.diff <check> quick   (apply to /repo, run check, git checkout)"]
+                 f"tools/seedrun.sh seeded/{ID}-{K}/patch.diff <check> quick   (apply to /repo, run check, git checkout)"]
 m["check_result"]=res
 json.dump(m,open(f"{dst}/meta.json","w"),indent=1)
 print(dst, conf)
